@@ -6,6 +6,7 @@
 package w6
 
 import (
+	"context"
 	"fmt"
 	"io"
 	"log"
@@ -36,6 +37,7 @@ type world struct {
 	faultFree         bool
 	orderB            bool // Clean(Shared(Root)) instead of the production order Shared(Clean(Root))
 	cleanerHonoursCtx bool
+	chainMode         int // 0: plain cleaner, 1: [cleaner, extra stage], 2: [extra stage, cleaner]
 	runLong           bool
 	normW             int
 	cycles            int
@@ -151,7 +153,12 @@ func newWorld(r *simrun.Run, prop string) *world {
 		return ""
 	}
 
-	invA := cleaner.NewIdleInvoker(w.newCleaner(w.mA, func() {
+	// In two runs of three the cleaners are chains built by the real
+	// cleaner.NewChainedCleaner, as cmd/bb_runner composes them: the
+	// instrumented cleaner plus a stage that never fails, in either order.
+	// The chain fails exactly when the instrumented cleaner does.
+	w.chainMode = t.Choice(3)
+	invA := cleaner.NewIdleInvoker(w.chain("builddir", w.newCleaner(w.mA, func() {
 		n := w.fs.wipe()
 		for k := range w.excused {
 			delete(w.excused, k)
@@ -159,12 +166,12 @@ func newWorld(r *simrun.Run, prop string) *world {
 		if n > 0 {
 			w.k.Probe("cleaner-removed-leftovers")
 		}
-	}))
-	invB := cleaner.NewIdleInvoker(w.newCleaner(w.mB, func() {
+	})))
+	invB := cleaner.NewIdleInvoker(w.chain("runner", w.newCleaner(w.mB, func() {
 		for k := range w.tmp {
 			delete(w.tmp, k)
 		}
-	}))
+	})))
 
 	rootDir := &faultDir{w: w, node: w.fs.root}
 	root := &probeCreator{w: w, base: builder.NewRootBuildDirectoryCreator(rootDir)}
@@ -400,4 +407,21 @@ func World(prop string) simrun.World {
 		w.run()
 		w.finish()
 	}
+}
+
+// chain composes the instrumented cleaner with a stage that parks and always
+// succeeds, through the real ChainedCleaner.
+func (w *world) chain(name string, c cleaner.Cleaner) cleaner.Cleaner {
+	extra := func(ctx context.Context) error {
+		w.k.Yield("clean-extra:" + name)
+		w.k.Probe("chained-cleaner-stage-ran")
+		return nil
+	}
+	switch w.chainMode {
+	case 1:
+		return cleaner.NewChainedCleaner([]cleaner.Cleaner{c, extra})
+	case 2:
+		return cleaner.NewChainedCleaner([]cleaner.Cleaner{extra, c})
+	}
+	return c
 }
